@@ -9,6 +9,7 @@ Section ExprInd.
   Variables (P : expr -> Prop) (Q : gen -> Prop).
   Hypothesis HLoad : forall n a, P (ELoad n a).
   Hypothesis HOp : forall es, Forall P es -> P (EOp es).
+  Hypothesis HAttr : forall e a, P e -> P (EAttr e a).
   Hypothesis HLam : forall ps ds b, Forall P ds -> P b -> P (ELambda ps ds b).
   Hypothesis HComp : forall gs es, Forall Q gs -> Forall P es -> P (EComp gs es).
   Hypothesis HGen : forall it t ifs, P it -> Forall P ifs -> Q (Gen it t ifs).
@@ -17,6 +18,7 @@ Section ExprInd.
     | ELoad n a => HLoad n a
     | EOp es => HOp es ((fix go (l : list expr) : Forall P l :=
                            match l with [] => Forall_nil _ | x :: r => Forall_cons x (expr_ind' x) (go r) end) es)
+    | EAttr e a => HAttr e a (expr_ind' e)
     | ELambda ps ds b => HLam ps ds b ((fix go (l : list expr) : Forall P l :=
                            match l with [] => Forall_nil _ | x :: r => Forall_cons x (expr_ind' x) (go r) end) ds)
                               (expr_ind' b)
